@@ -603,7 +603,7 @@ func main() {
 
 	g := &gen{r: lib.NewRng(a.Seed)}
 	r := g.r
-	budget := 1200
+	budget := 1330
 	if a.Tier == "thorough" {
 		budget = 5000
 	}
@@ -739,6 +739,26 @@ func main() {
 				continue
 			}
 			withFaults("per_type", in, a.Tier == "thorough")
+		}
+	}
+	// SetColumn from every before-hook invocation, per record and with the fromCallbacks flag, over every
+	// container shape of the argument (slices and Go arrays, of values and of pointers)
+	for _, sh := range []string{"ptr_slice_val", "slice_val", "ptr_slice_ptr", "slice_ptr", "ptr_array_val", "ptr_array_ptr", "array_ptr"} {
+		for _, op := range []string{"create", "save"} {
+			base := Input{Op: op, Type: "T5", Shape: sh, TxMode: "default", PayVia: "map_db", SetKey: lib.Pick(r, []string{"field", "db"}),
+				Recs: []RecIn{{Tag: 101, Val: 1}, {Tag: 102, Val: 2}, {Tag: 103, Val: 3}}}
+			n := len(runOne(base).Log)
+			for k := 0; k < n; k++ {
+				in := base
+				in.Sets = []int{k}
+				add("setcolumn", in)
+				if a.Tier == "thorough" || k%2 == 1 {
+					in.SetAll = true
+					in.Sets = []int{k, (k + 3) % n}
+					sort.Ints(in.Sets)
+					add("setcolumn", in)
+				}
+			}
 		}
 	}
 	// CreateInBatches: every relation between length and batch size, a failure at every invocation
